@@ -26,8 +26,8 @@ use crate::{
     wire::{RawEntry, RawMessage, RawPart},
 };
 
-const LETTERS: [&str; 14] = [
-    "init", "init-with-entries", "init-unknown-doc", "init-not-syncing-doc", "sync-fingerprint", "sync-items", "sync-tampered-entry", "sync-short-id",
+const LETTERS: [&str; 15] = [
+    "init", "init-with-entries", "partial-length-prefix", "init-unknown-doc", "init-not-syncing-doc", "sync-fingerprint", "sync-items", "sync-tampered-entry", "sync-short-id",
     "abort-notfound", "abort-already-syncing", "abort-internal", "half-frame", "oversized-length", "garbage",
 ];
 
@@ -79,6 +79,8 @@ fn letter_bytes(w: &World, letter: &str, rng: &mut Rng) -> Vec<u8> {
         "abort-notfound" => frame(&msg_abort(0)),
         "abort-already-syncing" => frame(&msg_abort(1)),
         "abort-internal" => frame(&msg_abort(2)),
+        // one to three bytes of a length prefix, then whatever follows (usually the end of the stream)
+        "partial-length-prefix" => vec![0u8; 1 + rng.below(3)],
         "half-frame" => {
             let f = frame(&msg_sync(&fp));
             f[..f.len() / 2].to_vec()
@@ -344,6 +346,8 @@ pub enum Fault {
     ShutdownActor,
     CutStream,
     CutInsideFrame,
+    /// the stream ends one to three bytes into a frame's length prefix
+    CutInsideLengthPrefix,
 }
 
 fn run_faults(ctx: &mut Ctx) {
@@ -417,6 +421,12 @@ pub async fn one_session(ha: &SyncHandle, hb: &SyncHandle, ns: NamespaceId, faul
                         let mut f = (len as u32).to_be_bytes().to_vec();
                         f.extend_from_slice(&body[..len / 2]);
                         let _ = if from_a { brw.write_all(&f).await } else { arw.write_all(&f).await };
+                        break;
+                    }
+                    Fault::CutInsideLengthPrefix => {
+                        let f = (len as u32).to_be_bytes();
+                        let n = 1 + (len % 3);
+                        let _ = if from_a { brw.write_all(&f[..n]).await } else { arw.write_all(&f[..n]).await };
                         break;
                     }
                 }
@@ -504,9 +514,9 @@ async fn fault_case(ctx: &mut Ctx, case: u64, rng: &mut Rng) {
     }
     // every fault position
     for at in 0..=k.min(12) {
-        for fault in [Fault::CloseReplica, Fault::SyncOff, Fault::ShutdownActor, Fault::CutStream, Fault::CutInsideFrame] {
+        for fault in [Fault::CloseReplica, Fault::SyncOff, Fault::ShutdownActor, Fault::CutStream, Fault::CutInsideFrame, Fault::CutInsideLengthPrefix] {
             for on_alice in [true, false] {
-                if matches!(fault, Fault::CutStream | Fault::CutInsideFrame) && !on_alice {
+                if matches!(fault, Fault::CutStream | Fault::CutInsideFrame | Fault::CutInsideLengthPrefix) && !on_alice {
                     continue; // the cut is symmetric
                 }
                 let (ha, hb) = (act::spawn(mk(&ea)), act::spawn(mk(&eb)));
